@@ -1058,6 +1058,10 @@ def run_dataset(I, c, ms, o):
     ds = build_ds(I, c, labels, False)
     key_img = "instance_image" if c["ds"] == "centered" else "image"
     key_pts = {"centered": "instance", "centroid": "centroids"}.get(c["ds"], "instances")
+    if (c["H"] + c["W"] + len(c["pts"])) % 2:
+        # in half of the dataset cases the measured read is the SECOND read of every index (the in-memory
+        # datasets serve repeated reads from a cache: registration must not depend on the read history)
+        ds_samples(I, c, ds, False)
     base = ds_samples(I, c, ds, False)
     n_items = len(c["pts"]) if c["ds"] == "centered" else 1
     if len(base) != n_items:
